@@ -148,7 +148,7 @@ func runC17Tamper(x *mc.X) {
 				bytevals = append(bytevals, b)
 			}
 		}
-		for off := ci * len(orig) / nSlices; off < (ci+1)*len(orig)/nSlices; off++ {
+		for off := ci * chunk; off < min(len(orig), (ci+1)*chunk); off++ {
 			if bytevals != nil {
 				for _, b := range bytevals {
 					if byte(b) == orig[off] {
